@@ -6,6 +6,7 @@ import HidVerif.Compiler.Templates
 import HidVerif.Gen.Funcs
 import HidVerif.Hid.Fold
 import HidVerif.Hid.Lexer
+import HidVerif.Hid.ParseRender
 open HidVerif HidVerif.Sphinx
 
 def bytesToLines (b : ByteArray) : List (List Char) := Id.run do
@@ -142,6 +143,24 @@ def main (argv : List String) : IO UInt32 := do
     let b ← IO.FS.readBinFile file
     let c : Case := { id := "vm", asm := bytesToLines b, args := args.map (fun a => a.toUTF8.data.toList.map (·.toNat)) }
     IO.println (runCase c)
+    return 0
+  | ["parse", file] =>
+    let txt ← IO.FS.readFile file
+    let mut cur : Option (String × List (List Nat)) := none
+    let flush (c : Option (String × List (List Nat))) : IO Unit :=
+      match c with
+      | none => pure ()
+      | some (id, ls) => IO.println s!"#case {id}\n{Hid.Parse.renderParse ls.reverse}"
+    for l in txt.splitOn "\n" do
+      if l.startsWith "#case " then
+        flush cur
+        cur := some ((l.drop 6).toString, [])
+      else if l == "#end" then
+        flush cur; cur := none
+      else match cur with
+        | some (id, ls) => cur := some (id, ((l.splitOn " ").filterMap (fun t => t.toNat?)) :: ls)
+        | none => pure ()
+    flush cur
     return 0
   | ["lex", file] =>
     -- token streams of the lexer model; input: `#case id` then one line of space-separated code points per source line
